@@ -207,6 +207,8 @@ type c11Chunk struct {
 	// the text of the `copy.splicev` op (SpliceMeta.lean)
 	Values               string
 	PageErr              string // a page location of the offset index does not lead to a page header
+	// the row group entry the chunk belongs to: file_offset, total_byte_size, total_compressed_size
+	RG                   [3]int64
 }
 
 func (p c11Page) trivial() bool { return !p.NullPage && p.NullCount == 0 && p.MinLen == 0 && p.MaxLen == 0 }
@@ -236,7 +238,7 @@ func c11FileInfo(file []byte, f *parquet.File) (out [][]c11Chunk, err error) {
 			m := &cc.MetaData
 			c := c11Chunk{Type: int(m.Type), Codec: int(m.Codec), CIOff: cc.ColumnIndexOffset, OIOff: cc.OffsetIndexOffset,
 				BloomOff: m.BloomFilterOffset, BloomLen: m.BloomFilterLength, NumValues: m.NumValues, NullCount: m.Statistics.NullCount,
-				Rows: rg.NumRows, HasDict: m.DictionaryPageOffset != 0,
+				Rows: rg.NumRows, HasDict: m.DictionaryPageOffset != 0, RG: [3]int64{rg.FileOffset, rg.TotalByteSize, rg.TotalCompressedSize},
 				DictOff: m.DictionaryPageOffset, DataOff: m.DataPageOffset, TotalC: m.TotalCompressedSize, TotalU: m.TotalUncompressedSize,
 				// an empty byte string bound is present (non-nil, length 0); absent bounds decode as nil
 				HasMinMax: m.Statistics.MinValue != nil || m.Statistics.MaxValue != nil,
@@ -936,7 +938,7 @@ func c11SpliceL2(ctx *core.Ctx, env *c11Env, d interface {
 			}
 		}
 		reqs = append(reqs, fmt.Sprintf("copy.splicev %d %s", start, strings.Join(req, ";")))
-		wants = append(wants, "ok "+strings.Join(want, ";")+" "+strings.Join(blooms, ","))
+		wants = append(wants, "ok "+strings.Join(want, ";")+" "+strings.Join(blooms, ",")+fmt.Sprintf(" rg=%d,%d,%d,%d", og[0].RG[0], og[0].RG[1], og[0].RG[2], og[0].Rows))
 	}
 	if len(reqs) == 0 {
 		return
@@ -972,7 +974,7 @@ func c11PageErr(info [][]c11Chunk) string {
 // c11LayoutOnly strips the value parts (`~...`) of a `copy.splicev` answer
 func c11LayoutOnly(ans string) string {
 	f := strings.Fields(ans)
-	if len(f) != 3 {
+	if len(f) != 4 {
 		return ans
 	}
 	chunks := strings.Split(f[1], ";")
@@ -981,7 +983,7 @@ func c11LayoutOnly(ans string) string {
 			chunks[i] = c[:j]
 		}
 	}
-	return f[0] + " " + strings.Join(chunks, ";") + " " + f[2]
+	return f[0] + " " + strings.Join(chunks, ";") + " " + f[2] + " " + f[3]
 }
 
 // c11Split: the row groups n buffered rows are flushed as
